@@ -75,6 +75,19 @@ def roles(ctx):
     if r.dir_updated is None:
         raise AnalysisError('directory freshness test not found')
     if r.deprecated is None:
+        # not called from load_rules (any more): find it by what it does
+        for m in enf.methods.values():
+            if m is lr or len(m.params) != 2:
+                continue
+            reads = any(isinstance(x, ast.Attribute)
+                        and x.attr == 'deprecated_rule'
+                        for x in ast.walk(m.node))
+            rets = [x for x in walk_no_nested(m.node)
+                    if isinstance(x, ast.Return) and x.value is not None
+                    and U(x.value).endswith('.check')]
+            if reads and rets:
+                r.deprecated = m
+    if r.deprecated is None:
         raise AnalysisError('deprecated-rule handler not found')
     cache['load_roles'] = r
     return r
